@@ -13,6 +13,7 @@ import re
 from ..common import leanio
 from ..common.leanio import InfraError
 from . import c08_gen as g
+from . import c09_place
 
 PID = 'C09'
 DRIVERS = ['nets']
@@ -37,8 +38,8 @@ TRUSTED = [
   'independence from the order of update blocks / of writes inside blocks and from Python set iteration order: by correspondence over orders',
 ]
 ASSUMPTIONS = [
-  'same design space as C08 (no interfaces / method ports / signal lists / Placeholder); operators limited to =, @=, <<= '
-  '(an augmented assignment such as += raises TypeError inside the error path: observed, outside the property\'s operator set)',
+  'same design space as C08 (no interfaces / method ports / Placeholder) for the net / port / multi-writer streams, operators =, @=, <<= and for targets there; '
+  'lists of signals, every augmented operator and non-constant part selects are covered by the operator-placement stream (c09_place.py)',
   'quirk kept: the same pair connected twice (either orientation) is merged by the adjacency sets and is not a loop (PV.C09.dup_is_no_loop)',
   'multi-defect designs are compared on accepted/rejected only',
 ]
@@ -61,6 +62,16 @@ def pregen(ck):
   mod = importlib.util.module_from_spec(spec); spec.loader.exec_module(mod)
   return mod.pregen()
 # ---- end: translator-based tie
+
+# ---- begin: operator-placement stream (c09_place.py; Model/Place.lean, Props/C09p.lean): target shape x operator x block kind x helper,
+# names bound in the block vs module-level names, accepted writes simulated
+DRIVERS = DRIVERS + c09_place.DRIVERS
+MODULE = MODULE + [c09_place.MODULE]
+THEOREMS = THEOREMS + c09_place.THEOREMS
+THEOREM_MODULE.update({t: c09_place.MODULE for t in c09_place.THEOREMS})
+TRUSTED = TRUSTED + c09_place.TRUSTED
+RULE = RULE + '; ' + c09_place.RULE
+# ---- end: operator-placement stream
 
 CLASSES = {'UpdateBlockWriteError', 'UpdateFFBlockWriteError', 'UpdateFFNonTopLevelSignalError', 'InvalidConnectionError',
            'MultiWriterError', 'NoWriterError', 'SignalTypeError', 'InvalidFuncCallError'}
@@ -260,12 +271,15 @@ def run(ck):
     for d in ds:
       pend.add(d, variants_of(d, rng, 2), name)
   pend.flush()
+  c09_place.run(ck, 'C09')
   ck.extra_cov['exhaustive'] = not quick
   ck.extra_cov['exhaustive_tables'] = ('port directions over nets: 11 host relations x 3 x 3 kinds (+ loop-back at the parent), and a constant driver: 6 (connecting component, component of the tied signal) pairs x 3 kinds x whole/part; ports in update blocks: 5 host pairs x 3 kinds x '
     'read/write; operators: 2 block kinds x 4 operators (=, @=, <<=, for target) x whole/slice/field, and every pair (first write, second write to the same object) of them; pairs of written objects of one Bits4 and one PB signal x '
     '{two blocks, one block, block and net}' + (' (write pairs sampled: 120)' if quick else ' (all)'))
 
 def replay(ck, data):
+  r = c09_place.replay(ck, data)
+  if r is not None: return r
   case = data['case']
   d = g.design_from_json(case['design'])
   var = g.variant_from_json(case['variant'])
